@@ -46,6 +46,10 @@ OpProg(op, i, j, form) ==
     Prelude \o
     CASE form = "plain" -> <<SDecl(EVar(A), Ex(i)), SDecl(EVar(Bn), Ex(j)),
                              SPrint(EBin(op, EVar(A), EVar(Bn)))>>
+      \* operands written as literals (an interpreter may look at the shape of an operand)
+      [] form = "litlit" -> <<SPrint(EBin(op, Ex(i), Ex(j)))>>
+      [] form = "varlit" -> <<SDecl(EVar(A), Ex(i)), SPrint(EBin(op, EVar(A), Ex(j)))>>
+      [] form = "litvar" -> <<SDecl(EVar(Bn), Ex(j)), SPrint(EBin(op, Ex(i), EVar(Bn)))>>
       [] form = "var"   -> <<SDecl(EVar(A), Ex(i)), SOpAssign(EVar(A), op, Ex(j)), SPrint(EVar(A))>>
       [] form = "elem"  -> <<SDecl(EVar(Xs), EList(<<Ex(i)>>)),
                              SOpAssign(EIndex(EVar(Xs), EInt(0)), op, Ex(j)), SPrint(EVar(Xs))>>
@@ -55,9 +59,16 @@ OpProg(op, i, j, form) ==
 Contexts == {"if", "while", "listidx", "stridx", "objidx", "rangestart", "rangeend", "ridxstart",
              "ridxend", "keyname", "slot", "listspread", "objspread", "callspread", "listdestruct",
              "objdestruct", "foriter", "callee", "dotrecv", "arrowrecv", "rangeassignrhs",
-             "idxassign", "propassign"}
+             "idxassign", "propassign",
+             \* a condition evaluated again later; patterns that bind nothing; index / bound / key of a target
+             "whilelater", "whilecontinue", "elseif", "emptyobjdecl", "emptyobjassign", "emptyobjparam",
+             "emptyobjnested", "emptyobjfor", "emptylistdecl", "emptylistassign", "emptylistparam",
+             "emptylistnested", "idxassignidx", "objassignkey", "opassignidx", "rangeassignstart",
+             "rangeassignend", "destructkey", "restobj", "restlist"}
 
 L12 == EList(<<EInt(1), EInt(2)>>)
+W1 == <<119, 49>>
+W2 == <<119, 50>>
 CtxProg(cx, i) ==
     Prelude \o <<SDecl(EVar(A), Ex(i))>> \o
     CASE cx = "if"         -> <<SIfElse(EVar(A), <<SPrint(EInt(1))>>, <<SPrint(EInt(2))>>)>>
@@ -85,6 +96,38 @@ CtxProg(cx, i) ==
                                    SPrint(EVar(Xs))>>
       [] cx = "idxassign"  -> <<SAssign(EIndex(EVar(A), EInt(0)), EInt(9)), SPrint(EVar(A))>>
       [] cx = "propassign" -> <<SAssign(EProp(EVar(A), <<97>>), EInt(9)), SPrint(EVar(A))>>
+      [] cx = "whilelater" -> <<SDecl(EVar(W1), EBool(TRUE)), SDecl(EVar(W2), EInt(0)),
+                                SWhile(EVar(W1), <<SPrint(EInt(1)), SOpAssign(EVar(W2), "+", EInt(1)),
+                                                   SIf(EBin("==", EVar(W2), EInt(2)), <<SAssign(EVar(W1), EVar(A))>>)>>),
+                                SPrint(EInt(2))>>
+      [] cx = "whilecontinue" -> <<SDecl(EVar(W1), EBool(TRUE)),
+                                   SWhile(EVar(W1), <<SPrint(EInt(1)), SAssign(EVar(W1), EVar(A)), SContinue>>),
+                                   SPrint(EInt(2))>>
+      [] cx = "elseif"     -> <<SIfOf(<<Branch(EBool(FALSE), <<SPrint(EInt(0))>>), Branch(EVar(A), <<SPrint(EInt(1))>>)>>,
+                                      Else(<<SPrint(EInt(2))>>))>>
+      [] cx = "emptyobjdecl"   -> <<SDecl(EObj(<<>>), EVar(A)), SPrint(EInt(1))>>
+      [] cx = "emptyobjassign" -> <<SAssign(EObj(<<>>), EVar(A)), SPrint(EInt(1))>>
+      [] cx = "emptyobjparam"  -> <<SFn(<<103>>, <<EVar(<<117>>), EObj(<<>>)>>, FALSE, <<SPrint(EVar(<<117>>))>>),
+                                    SExpr(ECall(EVar(<<103>>), <<EInt(1), EVar(A)>>))>>
+      [] cx = "emptyobjnested" -> <<SDecl(EPat(<<EObj(<<>>), EVar(<<117>>)>>), EList(<<EVar(A), EInt(1)>>)), SPrint(EVar(<<117>>))>>
+      [] cx = "emptyobjfor"    -> <<SFor(EPat(<<EVar(<<117>>), EObj(<<>>)>>), EList(<<EVar(A)>>), <<SPrint(EVar(<<117>>))>>)>>
+      [] cx = "emptylistdecl"   -> <<SDecl(EPat(<<>>), EVar(A)), SPrint(EInt(1))>>
+      [] cx = "emptylistassign" -> <<SAssign(EPat(<<>>), EVar(A)), SPrint(EInt(1))>>
+      [] cx = "emptylistparam"  -> <<SFn(<<103>>, <<EPat(<<>>), EVar(<<117>>)>>, FALSE, <<SPrint(EVar(<<117>>))>>),
+                                     SExpr(ECall(EVar(<<103>>), <<EVar(A), EInt(1)>>))>>
+      [] cx = "emptylistnested" -> <<SDecl(EObj(<<Pair(EStr(<<107>>), EPat(<<>>))>>), EObj(<<Pair(EStr(<<107>>), EVar(A))>>)),
+                                     SPrint(EInt(1))>>
+      [] cx = "idxassignidx"   -> <<SDecl(EVar(Xs), L12), SAssign(EIndex(EVar(Xs), EVar(A)), EInt(9)), SPrint(EVar(Xs))>>
+      [] cx = "objassignkey"   -> <<SDecl(EVar(O), EObj(<<>>)), SAssign(EIndex(EVar(O), EVar(A)), EInt(9)), SPrint(EVar(O))>>
+      [] cx = "opassignidx"    -> <<SDecl(EVar(Xs), L12), SOpAssign(EIndex(EVar(Xs), EVar(A)), "+", EInt(9)), SPrint(EVar(Xs))>>
+      [] cx = "rangeassignstart" -> <<SDecl(EVar(Xs), L12), SAssign(ERIndex(EVar(Xs), EVar(A), ENone), EList(<<EInt(7), EInt(8)>>)),
+                                      SPrint(EVar(Xs))>>
+      [] cx = "rangeassignend" -> <<SDecl(EVar(Xs), L12), SAssign(ERIndex(EVar(Xs), ENone, EVar(A)), EList(<<EInt(7), EInt(8)>>)),
+                                    SPrint(EVar(Xs))>>
+      [] cx = "destructkey"    -> <<SDecl(EObj(<<Pair(EVar(A), EVar(<<117>>))>>), EObj(<<Pair(EStr(<<115>>), EInt(1))>>)),
+                                    SPrint(EVar(<<117>>))>>
+      [] cx = "restobj"        -> <<SDecl(EObj(<<PCollect(EVar(<<117>>))>>), EVar(A)), SPrint(EVar(<<117>>))>>
+      [] cx = "restlist"       -> <<SDecl(EPatRest(<<EVar(<<117>>)>>), EVar(A)), SPrint(EVar(<<117>>))>>
 
 \* == / != reaching a pair of kinds *inside* containers: never a silent boolean for a mismatch
 EqNest(op, i, j, how) ==
@@ -101,6 +144,7 @@ C16Params ==
     \cup
     { <<"op", OpList[o], i, j, "plain">> : o \in 1 .. Len(OpList), i \in KIdx, j \in KIdx }
     \cup { <<"op", op, i, j, form>> : op \in AssignOps, i \in KIdx, j \in KIdx, form \in Forms \ {"plain"} }
+    \cup { <<"op", OpList[o], i, j, form>> : o \in 1 .. Len(OpList), i \in KIdx, j \in KIdx, form \in {"litlit", "varlit", "litvar"} }
     \cup { <<"ctx", cx, i, 0, "-">> : cx \in Contexts, i \in KIdx }
 
 \* the same matrix with the operation inside a function (prefix and stack trace)
@@ -155,6 +199,18 @@ EqNestRule ==
     (status.k # "running" /\ pi[1] = "eqnest") =>
         IF InDomain("==", ExVal(pi[3]).k, ExVal(pi[4]).k) THEN status.k = "done"
         ELSE status.k = "failed" /\ status.diag.kind = "InvalidEqOpTypes"
+\* contexts that take exactly one kind: everything else is a reported error there, also when the value only
+\* arrives on a later evaluation and also when the pattern binds nothing
+OnlyKind(cx) ==
+    CASE cx \in {"if", "while", "whilelater", "whilecontinue", "elseif"} -> {"bool"}
+      [] cx \in {"emptyobjdecl", "emptyobjassign", "emptyobjparam", "emptyobjnested", "emptyobjfor", "objdestruct", "restobj"} -> {"object"}
+      [] cx \in {"emptylistdecl", "emptylistassign", "emptylistparam", "emptylistnested", "listdestruct", "restlist"} -> {"list"}
+      [] cx \in {"idxassignidx", "opassignidx", "rangeassignstart", "rangeassignend", "listidx", "stridx"} -> {"int"}
+      [] cx \in {"objassignkey", "objidx", "keyname", "slot", "destructkey"} -> {"string"}
+      [] OTHER -> {}
+CtxRule ==
+    (status.k # "running" /\ pi[1] \in {"ctx", "ctxfn"} /\ OnlyKind(pi[2]) # {}) =>
+        (ExVal(pi[3]).k \notin OnlyKind(pi[2]) => status.k = "failed")
 ASSUME TypeNamesOk
 ASSUME TypeTable
 =============================================================================
